@@ -15,7 +15,7 @@ from fractions import Fraction
 import numpy as np
 
 from .. import core
-from ..core import Check, MachineryError, run_tlc
+from ..core import pyf, Check, MachineryError, run_tlc
 
 
 def fr(p):
@@ -68,7 +68,7 @@ def run(tier, seed):
         e_mu, e_k = float(fr(hmu)), float(fr(hk))
         ck.case(("kernel", ri), True)
         det = {"l": l, "r": rr, "y1": str(y1c), "dy1/dr": str(dc), "y2": str(y2c), "y3": str(y3c), "y4": str(y4c), "mu": str(muc), "K": str(kbc)}
-        for tag, fs, fb in (("jit", sensitivity_to_shear, sensitivity_to_bulk),) + ((("py", sensitivity_to_shear.py_func, sensitivity_to_bulk.py_func),) if ri % 6 == 0 else ()):
+        for tag, fs, fb in (("jit", sensitivity_to_shear, sensitivity_to_bulk),) + ((("py", pyf(sensitivity_to_shear), pyf(sensitivity_to_bulk)),) if ri % 6 == 0 else ()):
             gm = fs(sol, radius, shear, bulk, l)
             gk = fb(sol, radius, shear, bulk, l)
             if not all(np.array_equal(a, b) for a, b in zip((sol, radius, shear, bulk), keep)):
